@@ -115,7 +115,10 @@ def validate_args(func):
             # Never crash on Excel errors as we want to store them as the cell
             # value.
             return err
-        # 3. Convert the result to an Excel type.
+        # 3. Convert the result to an Excel type (an error value returned by
+        #    the function is the result as it stands).
+        if isinstance(res, xlerrors.ExcelError):
+            return res
         return _validate(sig.return_annotation, res, 'return')
 
     return validate
